@@ -89,7 +89,11 @@ def check_line(ctx, rec, D, case):
         if bad:
             ctx.violation(case, {"why": "inferred dialect differs from the exhibited one", "line": line, "diff(got,expected)": bad})
             return
-    printed = str(f)
+    try:
+        printed = str(f)
+    except Exception as ex:
+        ctx.violation(case, {"why": "printing the parsed feature raised %r" % (ex,), "line": line})
+        return
     if printed != line:
         ctx.violation(case, {"why": "printed form differs from the line", "line": line, "printed": printed})
         return
